@@ -129,6 +129,8 @@ fragment above closed under
     whose series have pairwise distinct match keys (`UniqueKeys`; `uniqueKeys_agg`: always the case
     for `agg by (g) (..)` matched `on (g)` and `agg without (g) (..)` matched `ignoring (g)`),
   * pointwise functions, unary minus, parentheses, vector-scalar arithmetic and comparison,
+    `clamp_min` / `clamp_max` with scalar-typed bounds of the fragment,
+  * `timestamp()` of an unpinned selector (with the reference's own-timestamp semantics),
 nested to any depth: plan construction succeeds, no step fails in either engine, and the step
 vector read through `Series()` is a permutation of the reference value. The engine orders groups
 and join outputs statically and the reference by first appearance at the step, so a permutation
@@ -158,6 +160,12 @@ example (c : Ctx V) : FragP c
           (.agg "group" false ["a"] _ (by decide) (C04.reduce_hyp_plain "group" nan (by decide) (by decide)) (perm_hyp_group nan)
             (.base _ (.rangefn "rate" _ _ (by decide))))))
       (.num _))
+
+/-- ... `count by (a) (timestamp(m))`, for every context with the reference's `timestamp()` -/
+example (c : Ctx V) (hts : c.q.timestampIsStepTime = false) : FragP c
+    (.agg "count" false ["a"] (.call "timestamp" [.vsel ⟨[⟨.eq, "__name__", "m"⟩], 0, none, none⟩]) : Expr V) :=
+  .agg "count" false ["a"] _ (by decide) (C04.reduce_hyp_plain "count" nan (by decide) (by decide)) (perm_hyp_count nan)
+    (.tsSel _ rfl hts)
 
 /-- ... and, under the order laws, `quantile(scalar(q), max by (a) (m))` -/
 example (c : Ctx V) (L : LtLaws (fun v : V => isNaN v = false)) (hn : NanLaw V)
